@@ -37,7 +37,7 @@ def configs(tier, seed):
         famy += [c for c in fam.pattern_family(range(0, 4), 3, seed=seed) if len(c[1]) == 5][(seed + 1) % 3::3]
     for k, (p, pat) in enumerate(famy):
         cfgs.append(dict(name=f"S p={p} mults={pat} pol", p=p, mults=pat, rational=False))
-        if p >= 1 and (p <= 2 or (len(pat) <= 3 and p <= 3)):
+        if p <= 2 or (len(pat) <= 3 and p <= 3):  # (degree 0 included)
             cfgs.append(dict(name=f"S p={p} mults={pat} rat", p=p, mults=pat, rational=True))
     cfgs.append(dict(name="index errors", p=2, mults=[3, 1, 3], rational=False, index_errors=True))
     return cfgs
